@@ -116,6 +116,7 @@ class Session:
             mval = 0.0 if op == "u_in" else 3.0
             rows = [[xval, mval, nid]] + ([[xval, mval, nid + 1]] if op == "u_2rows" else [])
             X = pd.DataFrame(rows, columns=mm.FEATURES)
+            X = X[list(self.det.reference_batch_features.columns)]  # samples follow the reference's current column order
             try:
                 with sut(detector="MD3", op=op, allow=(ValueError,)):
                     self.det.update(X)
@@ -137,6 +138,10 @@ class Session:
             row = [xval, lm_, nid, y]
             rows = [row] + ([[xval, lm_, nid + 1, y]] if op == "l_2rows" else [])
             df = pd.DataFrame(rows, columns=cols)
+            if (nid // 2) % 3 == 1:
+                df = df[["y", "id", "m", "x"]]  # same columns in another order (columns are matched by name)
+            elif (nid // 2) % 3 == 2:
+                df = df[["m", "x", "y", "id"]]
             if op == "l_cols":
                 df = df.rename(columns={"m": "other"}) if (nid // 2) % 2 else df.drop(columns=["m"])
             try:
